@@ -62,22 +62,41 @@ structure Variant where
 
 def asWritten : Variant := ⟨Bmp.asWritten, Rib.asWritten⟩
 
+/-- The life cycle of a session as RFC 7854 sees it: before the Initiation message, between it and the
+    end of the session, after the end. -/
+inductive Life where
+  | fresh | live | dead
+  deriving DecidableEq, Repr
+
+/-- The phase of the state machine, read as a life-cycle stage (also the abstraction map of the refinement). -/
+def lifeOf : Bmp.Phase → Life
+  | .initiating => .fresh
+  | .dumping => .live
+  | .updating => .live
+  | .terminated => .dead
+
 /-- One accepted connection: a `BmpState` without the register (which is shared). -/
 structure Sess where
   phase : Bmp.Phase
   peers : List Bmp.Peer
   deriving DecidableEq, Repr
 
-/-- One `bmp-tcp-in` unit feeding one RIB unit. Session `i` is the `i`-th accepted connection. -/
+/-- One `bmp-tcp-in` unit feeding one RIB unit. Session `i` is the `i`-th accepted connection.
+    `rids[i]` is the router ingress id connection `i` was given (`unit.rs:422-428`), `par` the
+    `parent_ingress` of every peer-level register entry (id, router id) — what
+    `Register::ids_for_parent` reads.  A connection that is no longer read (`read_from_router` has
+    left its loop) is represented by `⟨.terminated, []⟩`: its state machine is never stepped again. -/
 structure World where
   sess : List Sess
   reg : List (Key × Mui)
   next : Mui
+  rids : List Mui
+  par : List (Mui × Mui)
   rib : Rib.Rib
   deriving DecidableEq, Repr
 
 /-- A fresh unit: the unit itself holds ingress id 1 (`unit.rs:385`), nothing else is registered. -/
-def World.init : World := ⟨[], [], 2, Rib.Rib.empty⟩
+def World.init : World := ⟨[], [], 2, [], [], Rib.Rib.empty⟩
 
 inductive Ev where
   /-- A connection is accepted from a router whose register key class (unit, remote address) is `rk`:
@@ -85,6 +104,9 @@ inductive Ev where
   | connect (rk : Key)
   /-- Message `m` arrives on connection `i`. -/
   | msg (i : Nat) (m : Msg)
+  /-- Connection `i` ends without a Termination message (EOF, fatal read error): `read_from_router`
+      leaves its loop and runs its epilogue (`router_handler.rs:305-335`). -/
+  | disconnect (i : Nat)
   deriving DecidableEq, Repr
 
 abbrev History := List Ev
@@ -104,19 +126,58 @@ def emit (vr : Rib.Variant) (m : Msg) : Bmp.Out → List Rib.Update
 /-- The `BmpState` of a session: its own phase and peer table on the shared register. -/
 def World.view (w : World) (s : Sess) : Bmp.State := ⟨s.phase, s.peers, w.reg, w.next⟩
 
+/-- The register entries a state machine step added (`register()` + `update_info` with
+    `parent_ingress = ` the router id of the connection): the ids `next … next' - 1`. -/
+def newChildren (rid : Mui) (next next' : Mui) : List (Mui × Mui) :=
+  (List.range' next (next' - next)).map (fun m => (m, rid))
+
+/-- `Register::ids_for_parent` (`ingress.rs:100`): every id whose `parent_ingress` is `rid` — the
+    peers that are up, the peers that went down long ago, and the peers of any other connection
+    that was given the same router id.  (Hash-map order in the code; the order does not matter to
+    `WithdrawBulk`.) -/
+def idsForParent (rid : Mui) (par : List (Mui × Mui)) : List Mui :=
+  (par.filter (fun e => e.2 == rid)).map (·.1)
+
+/-- The epilogue of `read_from_router` (`router_handler.rs:313-335`): `WithdrawBulk(ids_for_parent(router
+    id))`, then `UpstreamStatusChange(EndOfStream)`. It runs whenever the read loop is left: end of
+    input, fatal read error, **and** after a Termination message (`router_handler.rs:293-300`). -/
+def epilogue (rid : Mui) (par : List (Mui × Mui)) : List Rib.Update :=
+  [.withdrawBulk (idsForParent rid par), .endOfStream]
+
+/-- Did this step end the session (`matches!(state, BmpState::Terminated(_))` after the message)? -/
+def endedBy : Life → Life → Bool
+  | .dead, _ => false
+  | _, .dead => true
+  | _, _ => false
+
 /-- One event. `K i h` is the register key class (router id of connection `i`, peer address,
     peer AS, RIB type) of per-peer header `h` on connection `i`. -/
 def World.step (v : Variant) (K : Nat → Hdr → Key) (w : World) : Ev → World
   | .connect rk =>
     let r := Bmp.regFor rk ⟨.initiating, [], w.reg, w.next⟩
-    { w with sess := w.sess ++ [⟨.initiating, []⟩], reg := r.1, next := r.2.1 }
+    { w with sess := w.sess ++ [⟨.initiating, []⟩], reg := r.1, next := r.2.1, rids := w.rids ++ [r.2.2] }
   | .msg i m =>
     match w.sess[i]? with
     | none => w
     | some s =>
       let r := Bmp.step v.bmp (K i) (w.view s) m.toBmp
+      let rid := w.rids.getD i 0
+      let par := w.par ++ newChildren rid w.next r.st.next
       { sess := w.sess.set i ⟨r.st.phase, r.st.peers⟩, reg := r.st.reg, next := r.st.next,
-        rib := w.rib.applyAll v.rib (emit v.rib m r.out) }
+        rids := w.rids, par := par,
+        rib := w.rib.applyAll v.rib (emit v.rib m r.out ++
+          (match endedBy (lifeOf s.phase) (lifeOf r.st.phase) with
+           | true => epilogue rid par
+           | false => [])) }
+  | .disconnect i =>
+    match w.sess[i]? with
+    | none => w
+    | some s =>
+      match lifeOf s.phase with
+      | .dead => w
+      | _ =>
+        { w with sess := w.sess.set i ⟨.terminated, []⟩,
+                 rib := w.rib.applyAll v.rib (epilogue (w.rids.getD i 0) w.par) }
 
 def World.runFrom (v : Variant) (K : Nat → Hdr → Key) (w : World) (H : History) : World :=
   H.foldl (World.step v K) w
@@ -143,7 +204,7 @@ def Msg.ok (vb : Bmp.Variant) : Msg → Bool
 
 def Ev.ok (vb : Bmp.Variant) : Ev → Bool
   | .msg _ m => m.ok vb
-  | .connect _ => true
+  | _ => true
 
 /-- What the token must say about the content (checked by the driver on every case, so a parser
     that breaks it shows up as a correspondence failure): deliverable iff the content is not
@@ -160,10 +221,6 @@ def Msg.consistent : Msg → Bool
 
 /-! ### The specification-level tracker -/
 
-inductive Life where
-  | fresh | live | dead
-  deriving DecidableEq, Repr
-
 /-- What RFC 7854 says a monitoring station has to remember about one session. -/
 structure TSess where
   life : Life
@@ -174,9 +231,11 @@ structure Track where
   sess : List TSess
   reg : List (Key × Mui)
   next : Mui
+  rids : List Mui
+  par : List (Mui × Mui)
   deriving DecidableEq, Repr
 
-def Track.init : Track := ⟨[], [], 2⟩
+def Track.init : Track := ⟨[], [], 2, [], []⟩
 
 /-- `find_or_register_*` on the register: the id of key class `k`, registering it if new. -/
 def regFor (k : Key) (reg : List (Key × Mui)) (next : Mui) : List (Key × Mui) × Mui × Mui :=
@@ -227,17 +286,51 @@ def TSess.step (K1 : Hdr → Key) (s : TSess) (reg : List (Key × Mui)) (next : 
        | ids => [.downBulk ids]⟩
     | _ => ⟨s, reg, next, []⟩
 
-/-- One event on the tracker: the new tracker and the `Rib.Ev`s it contributes. -/
+/-- One event on the tracker: the new tracker and the `Rib.Ev`s that **reach the RIB** for it (what the
+    code sends). When a session ends — by a Termination message or because the connection is lost — the
+    handler's epilogue names every id registered under the connection's router id. -/
 def Track.step (K : Nat → Hdr → Key) (T : Track) : Ev → Track × List Rib.Ev
   | .connect rk =>
     let r := regFor rk T.reg T.next
-    ({ sess := T.sess ++ [⟨.fresh, []⟩], reg := r.1, next := r.2.1 }, [])
+    ({ T with sess := T.sess ++ [⟨.fresh, []⟩], reg := r.1, next := r.2.1, rids := T.rids ++ [r.2.2] }, [])
   | .msg i m =>
     match T.sess[i]? with
     | none => (T, [])
     | some s =>
       let r := s.step (K i) T.reg T.next m
-      (⟨T.sess.set i r.s, r.reg, r.next⟩, r.evs)
+      let rid := T.rids.getD i 0
+      let par := T.par ++ newChildren rid T.next r.next
+      (⟨T.sess.set i r.s, r.reg, r.next, T.rids, par⟩,
+       r.evs ++ (match endedBy s.life r.s.life with
+                 | true => [.downBulk (idsForParent rid par)]
+                 | false => []))
+  | .disconnect i =>
+    match T.sess[i]? with
+    | none => (T, [])
+    | some s =>
+      match s.life with
+      | .dead => (T, [])
+      | _ => ({ T with sess := T.sess.set i ⟨.dead, []⟩ }, [.downBulk (idsForParent (T.rids.getD i 0) T.par)])
+
+/-- The session-level withdrawal the property asks for when a session ends: the ids of the peers that are up on it. -/
+def TSess.endEvs (s : TSess) : List Rib.Ev :=
+  match s.up.map (·.2) with
+  | [] => []
+  | ids => [.downBulk ids]
+
+/-- What the **property** wants the RIB to see for one event (C02: "losing a session withdraws exactly that
+    session's routes and nothing else"): the route data and Peer Downs as they come, a Termination and a lost
+    connection as one withdrawal of the ids of the peers that were up on that session. -/
+def Track.want (K : Nat → Hdr → Key) (T : Track) : Ev → List Rib.Ev
+  | .connect _ => []
+  | .msg i m =>
+    (match T.sess[i]? with
+     | none => []
+     | some s => (s.step (K i) T.reg T.next m).evs)
+  | .disconnect i =>
+    (match T.sess[i]? with
+     | none => []
+     | some s => match s.life with | .dead => [] | _ => s.endEvs)
 
 def Track.runFrom (K : Nat → Hdr → Key) (T : Track) (H : History) : Track :=
   H.foldl (fun T e => (T.step K e).1) T
@@ -249,17 +342,17 @@ def traceFrom (K : Nat → Hdr → Key) : Track → History → Rib.History
 
 def trace (K : Nat → Hdr → Key) (H : History) : Rib.History := traceFrom K Track.init H
 
-/-- The abstraction map from the composed model to the tracker. -/
-def lifeOf : Bmp.Phase → Life
-  | .initiating => .fresh
-  | .dumping => .live
-  | .updating => .live
-  | .terminated => .dead
+/-- The RIB history the property asks for (`Track.want` along the history). -/
+def wantFrom (K : Nat → Hdr → Key) : Track → History → Rib.History
+  | _, [] => []
+  | T, e :: H => T.want K e ++ wantFrom K (T.step K e).1 H
+
+def want (K : Nat → Hdr → Key) (H : History) : Rib.History := wantFrom K Track.init H
 
 def upOf (ps : List Bmp.Peer) : List (Hdr × Mui) := ps.map (fun p => (p.hdr, p.mui))
 
 def Sess.abs (s : Sess) : TSess := ⟨lifeOf s.phase, upOf s.peers⟩
 
-def World.abs (w : World) : Track := ⟨w.sess.map Sess.abs, w.reg, w.next⟩
+def World.abs (w : World) : Track := ⟨w.sess.map Sess.abs, w.reg, w.next, w.rids, w.par⟩
 
 end Rotonda.PipeBmp
